@@ -24,8 +24,9 @@ Proof. exact batch_tables_is_fold. Qed.
    in request order, exactly with the items the individual GetItem calls return for the requested keys, and leaves the
    client unchanged.  (That it ALSO lists the keys without a stored item as unprocessed is known finding C19-1.) *)
 Theorem C19_batch_get_is_the_individual_gets :
-  forall c reqs,
+  forall c reqs opts,
     c_failure c = None ->
     exists unprocessed,
-      batch_get V2 c reqs = (c, ok_obs (PBatchGet (map (fun tk => (fst tk, gets c (fst tk) (snd tk))) reqs) unprocessed) []).
+      batch_get V2 c reqs opts =
+      (c, ok_obs (PBatchGet (map (fun tk => (fst tk, gets c (fst tk) (fst (opts_of opts (fst tk))) (snd (opts_of opts (fst tk))) (snd tk))) reqs) unprocessed) []).
 Proof. exact batch_get_is_gets. Qed.
